@@ -3,7 +3,10 @@ SPEC = {
     'theorems': ['EV.Mempool.C08_exact', 'EV.Mempool.C08_observables', 'EV.Mempool.C08_observables_inv',
                  'EV.Mempool.C08_touched', 'EV.Mempool.C08_touched_handed_over',
                  'EV.Mempool.Conflict.C08_counterexample_conflict'],
-    'suites': ['mempool'],
+    'suites': ['mempool', 'index'],
+    # of the shared index suite, C08 relies on DB.lookup_utxos only (the resolution of prevouts, incl.
+    # outputs sharing the 4-byte compressed tx hash and index): EnvQuiet's "lookup_utxos is exact"
+    'claims': {'violation_tags': ['lookup'], 'disagreement_tags': ['lookup']},
     'assumptions': [
         'EnvQuiet: during the refresh the daemon mempool M and its height are stable and the index is at that '
         'height: every listed transaction is delivered and is the transaction with that id (txid injectivity: the '
